@@ -37,13 +37,16 @@ def run(tier, seed):
         if tier == "quick" and mname == "shin-metiu" and it > 9: mname, x0, p0, dt = MODELS[1]
         C, model = mk(cls, mname)
         if cls == "md": x0, p0, dt = [0.3, -0.2], [2.0, -1.0], 5.0
+        if it % 2 == 1:
+            dt = dt * rng.choice([0.7, 1.1, 0.23, 0.3])       # time steps that are not exactly representable
+        t0 = rng.choice([0.0, 0.0, 37.5, 1234.1, -12.3])
         n = rng.choice([40, 90, 160]) if mname in ("dual", "super", "models", "simple") else rng.choice([12, 30])
         rule = rng.choice(["max_steps", "max_time", "max_time_nonmultiple"])
         Z = [rng.choice([2.0, 2.0, 2.0, rng.random() * 0.2, rng.random()]) for _ in range(n + 5)]
-        lim = dict(max_steps=n) if rule == "max_steps" else dict(max_time=dt * n if rule == "max_time" else dt * (n - 0.4), max_steps=-1)
+        lim = dict(max_steps=n) if rule == "max_steps" else dict(max_time=t0 + (dt * n if rule == "max_time" else dt * (n - 0.4)), max_steps=-1)
         zkw = (lambda zz: dict(zeta_list=list(zz))) if cls == "fssh" else (lambda zz: {})
         args = (x0, p0) if cls == "md" else (x0, p0, 0)
-        full = C(model, *args, dt=dt, **lim, **zkw(Z)).simulate()
+        full = C(model, *args, dt=dt, t0=t0, **lim, **zkw(Z)).simulate()
         nfull = len(full)
         ks = sorted(set([1, 2, nfull - 2] + [rng.randint(1, nfull - 2) for _ in range(4 if tier == "quick" else 12)]))
         for k in ks:
@@ -52,8 +55,8 @@ def run(tier, seed):
             d = os.path.join(tmproot, "r%d_%d" % (it, k)); os.makedirs(d)
             tracer = InMemoryTrace() if backend == "memory" else YAMLTrace(base_name="ta", location=d, log_pitch=pitch)
             C2, model2 = mk(cls, mname)
-            part = C2(model2, *args, dt=dt, max_steps=k, tracer=tracer, **zkw(Z)).simulate()
-            info = dict(cls=cls, model=mname, dt=dt, interrupted_after=k, total=nfull - 1, rule=rule, backend=backend, pitch=pitch)
+            part = C2(model2, *args, dt=dt, t0=t0, max_steps=k, tracer=tracer, **zkw(Z)).simulate()
+            info = dict(cls=cls, model=mname, dt=dt, t0=t0, interrupted_after=k, total=nfull - 1, rule=rule, backend=backend, pitch=pitch)
             if len(part) != k + 1:
                 bad.append(dict(failed="interrupted run logged k+1 snapshots", case=info)); continue
             log = part if backend == "memory" else load_log(os.path.join(d, "ta-0.yaml"))
@@ -72,7 +75,7 @@ def run(tier, seed):
             except Exception as ex:
                 bad.append(dict(failed="restart raised %s: %s" % (type(ex).__name__, ex), case=info)); shutil.rmtree(d, ignore_errors=True); continue
             res.count("class/" + cls); res.count("model/" + mname); res.count("rule/" + rule); res.count("backend/" + backend)
-            res.count("dt/" + ("explicit" if explicit_dt else "inferred"))
+            res.count("dt/" + ("explicit" if explicit_dt else "inferred")); res.count("t0/" + ("zero" if t0 == 0.0 else "nonzero")); res.count("dt-dyadic" if it % 2 == 0 else "dt-non-dyadic")
             res.case(("restart", cls, mname, k, rule, backend, pitch, explicit_dt), True, info)
             tol = 1e-10 if explicit_dt else 1e-7
             if len(out) != nfull:
